@@ -17,13 +17,15 @@ The penetration depth is never taken as an infimum: `DepthAtLeast M r` says the 
 model records: `exit` (0 tolerance exit of `_find_penetration_info`, 1 its iteration-cap exit,
 2 `ORIGIN_ON_V1`, 3 `ORIGIN_ON_V0V1_SEGMENT`), the final `portal`, the last portal direction `n`,
 the last support point `w`, the `point_to_triangle` region `tri`, the `_contact_position`
-branch `cpos`, `touch` (`abs(depth) < EPSILON` fired).
+branch `cpos` (0 main, 1 fallback, 2 degenerate portal), `touch` (`abs(depth) < EPSILON` fired).
 
 Proved in full: `depth_nonneg`, `direction_unit_or_zero`, `depth_ge_true_minus_tol`,
 `residual_le_tol` (in **every** Voronoi region of the closest point — `depth · direction` is
 the closest point of the portal triangle itself, which lies in the portal plane),
 `face_region_direction`, `touch_and_segment_cases`, `contact_bary`,
-`contact_exact_of_nonneg_weights`, `find_penetration_info_terminates`,
+`contact_exact_of_nonneg_weights`, `contact_degenerate_portal`, `contact_position_total`,
+`degenerate_portal_before_after` (repair 045c18e of F-mpr-degenerate-portal-nan),
+`find_penetration_info_terminates`,
 `segment_contact_asIs_counterexample` (the unchanged code violates the contact-position clause).
 Not proved (see PARTIAL in harness/props/c08.py): anything about the iteration-cap exit and about
 a degenerate final portal, that the barycentric weights are non-negative (the origin stays in
@@ -280,8 +282,9 @@ theorem touch_and_segment_cases (hs : SupOK A B sup)
     constructor <;> intro he <;> omega
 
 /-- **C08, contact position from barycentric weights** (`PORTAL_WAS_BUILT` exits).
-The weights `_contact_position` uses (main branch or the `coords_sum < EPSILON` fallback) sum
-to 1; the contact position is the midpoint of the two pre-images `x = Σ wᵢ aᵢ`, `y = Σ wᵢ bᵢ`
+The weights `_contact_position` uses (main branch, the `coords_sum < EPSILON` fallback, or — in
+the degenerate-portal branch of the repair 045c18e — the unit weight on the portal row closest to
+the origin) sum to 1; the contact position is the midpoint of the two pre-images `x = Σ wᵢ aᵢ`, `y = Σ wᵢ bᵢ`
 (rows `aᵢ ∈ A`, `bᵢ ∈ B`), hence half of `|x − y|` away from each; where the weights are
 non-negative the pre-images lie in `A` and `B` (convex combinations of the centre and support
 points). -/
@@ -297,14 +300,20 @@ theorem contact_bary (hs : SupOK A B sup) (hA : ConvexSet A) (hB : ConvexSet B)
       ((0 ≤ w.1 ∧ 0 ≤ w.2.1 ∧ 0 ≤ w.2.2.1 ∧ 0 ≤ w.2.2.2) → A x ∧ B y) := by
   have hf := built_exit_facts hs h hi he
   obtain ⟨t, c, _, hc, _, _, hpos, _, _, _, _, _⟩ := exit_unpack hf.fin
-  obtain ⟨w, hw, hcw⟩ := contactPosition_ok hc
-  have hsum := contactWeights_sum hw
   obtain ⟨ha0, hb0⟩ := findOriginRay_ab c1 c2
   obtain ⟨r1, r2, r3⟩ := hf.rows
-  refine ⟨w.1, _, _, hsum, rfl, rfl, ?_, ?_, ?_, ?_⟩
-  · rw [hpos, hcw]
-  · rw [hpos, hcw]; exact (midpoint_dist _ _).1
-  · rw [hpos, hcw]; exact (midpoint_dist _ _).2
+  -- in every branch the position is the midpoint of two pre-images with weights summing to 1
+  have key : ∃ w : ℝ × ℝ × ℝ × ℝ, sum4 w = 1 ∧
+      i.pos = V3.smul 0.5 (comb4 w i.portal.p0.a i.portal.p1.a i.portal.p2.a i.portal.p3.a +
+        comb4 w i.portal.p0.b i.portal.p1.b i.portal.p2.b i.portal.p3.b) := by
+    rcases contactPosition_ok hc with ⟨_, hcd⟩ | ⟨_, w, hw, hcw⟩
+    · obtain ⟨w, hsum, _, _, _, _, hd⟩ := degeneratePos_as_comb i.portal
+      exact ⟨w, hsum, by rw [hpos, hcd]; exact hd⟩
+    · exact ⟨w.1, contactWeights_sum hw, by rw [hpos, hcw]⟩
+  obtain ⟨w, hsum, hp⟩ := key
+  refine ⟨w, _, _, hsum, rfl, rfl, hp, ?_, ?_, ?_⟩
+  · rw [hp]; exact (midpoint_dist _ _).1
+  · rw [hp]; exact (midpoint_dist _ _).2
   · rintro ⟨w0, w1, w2, w3⟩
     constructor
     · apply comb4_mem hA _ r1.1 r2.1 r3.1 w0 w1 w2 w3 hsum
@@ -335,7 +344,8 @@ theorem contact_exact_of_nonneg_weights (hs : SupOK A B sup) (hA : ConvexSet A) 
   have hf := built_exit_facts hs h hi he
   obtain ⟨t, c, _, hc, _, _, hpos, _, _, hcp, _, _⟩ := exit_unpack hf.fin
   rw [← hf.n] at hc
-  obtain ⟨w, hwok, hcw⟩ := contactPosition_ok hc
+  rcases contactPosition_ok hc with ⟨_, hcd⟩ | ⟨_, w, hwok, hcw⟩
+  · rw [hcd] at hcp; simp only at hcp; omega
   have hsum := contactWeights_sum hwok
   obtain ⟨w0, w1, w2, w3⟩ := hw w hwok
   obtain ⟨ha0, hb0⟩ := findOriginRay_ab c1 c2
@@ -358,6 +368,70 @@ theorem contact_exact_of_nonneg_weights (hs : SupOK A B sup) (hA : ConvexSet A) 
   constructor
   · rw [hposx]; exact hx
   · rw [hposx, hxy]; exact hy
+
+/-- **C08, degenerate portal (repair 045c18e).**  When `_contact_position` takes its
+degenerate-portal branch (`cpos = 2`: both barycentric weight sums are below `EPSILON`, e.g. a
+portal with a repeated vertex left by the iteration cap of `_discover_portal` on an exactly
+touching pair) the reported contact position is the midpoint of the two pre-images `a ∈ A`,
+`b ∈ B` of **one portal row** `p = a − b` — a row of smallest `|v|` among rows 1..3 (row
+invariant: `discoverPortal_spec`, `refinePortal_spec`, `findPenInfoLoop_exit`) — hence within
+`|p.v| / 2` of both colliders; and if that row is the origin (the touching point) the contact
+position lies in `A ∩ B`. -/
+theorem contact_degenerate_portal (hs : SupOK A B sup)
+    (h : mprPenetration sup c1 c2 tol maxIter fuel = .ok res) (hi : res.info = some i)
+    (he : i.exit = 0 ∨ i.exit = 1) (hdeg : i.cpos = 2) :
+    ∃ p : SP ℝ, (p = i.portal.p1 ∨ p = i.portal.p2 ∨ p = i.portal.p3) ∧
+      A p.a ∧ B p.b ∧ p.v = p.a - p.b ∧
+      V3.normSq p.v ≤ V3.normSq i.portal.p1.v ∧ V3.normSq p.v ≤ V3.normSq i.portal.p2.v ∧
+      V3.normSq p.v ≤ V3.normSq i.portal.p3.v ∧
+      i.pos = V3.smul 0.5 (p.a + p.b) ∧
+      V3.norm (i.pos - p.a) = V3.norm p.v / 2 ∧ V3.norm (i.pos - p.b) = V3.norm p.v / 2 ∧
+      (p.v = V3.zero → A i.pos ∧ B i.pos) := by
+  have hf := built_exit_facts hs h hi he
+  obtain ⟨t, c, _, hc, _, _, hpos, _, _, hcp, _, _⟩ := exit_unpack hf.fin
+  obtain ⟨r1, r2, r3⟩ := hf.rows
+  have hposd : i.pos = degeneratePos i.portal := by
+    rcases contactPosition_ok hc with ⟨_, hcd⟩ | ⟨_, w, hwok, hcw⟩
+    · rw [hpos, hcd]
+    · exfalso
+      obtain ⟨u, s, _, _, _, hcase⟩ := contactWeights_ok hwok
+      rw [hcw] at hcp; simp only at hcp
+      rcases hcase with ⟨h0, _⟩ | ⟨h1, _⟩ <;> omega
+  obtain ⟨p, _, hmem, hA, hB, hv, hmid, hda, hdb, m1, m2, m3, hz⟩ := degeneratePos_spec r1 r2 r3
+  rw [← hposd] at hmid hda hdb hz
+  exact ⟨p, hmem, hA, hB, hv, m1, m2, m3, hmid, hda, hdb, hz⟩
+
+/-- non-vacuity of the degenerate branch: on the exact portal `Ex.Deg.P` the scan selects row 2,
+which is the origin with coinciding pre-images (see `degenerate_portal_before_after`) -/
+example : closestRow Ex.Deg.P.p1 Ex.Deg.P.p2 Ex.Deg.P.p3 = (Ex.Deg.r2, 2) ∧
+    Ex.Deg.r2.v = V3.zero ∧ Ex.Deg.r2.a = Ex.Deg.r2.b :=
+  ⟨Ex.Deg.closest, rfl, rfl⟩
+
+/-- **C08, `_contact_position` cannot divide by zero any more** (after 045c18e): for every portal
+and direction the model returns a position.  Before the repair a portal whose main weights sum
+below `EPSILON` and whose fallback weights sum to exactly 0 gave `0 / 0`
+(`contactPosition_before_fix_divZero`; NaN in the implementation, finding
+F-mpr-degenerate-portal-nan). -/
+theorem contact_position_total (P : Portal ℝ) (dir : V) : ∃ c, contactPosition P dir = .ok c :=
+  contactPosition_total P dir
+
+/-- **C08, before / after on an exact degenerate portal** (the shape of the witness of
+F-mpr-degenerate-portal-nan: rows 1 and 3 coincide, row 2 is the origin with both pre-images at
+(1,1,0); the portal direction is the zero vector): before the repair `_contact_position` divides
+by zero, after it returns the touching point (1,1,0) through branch 2. -/
+theorem degenerate_portal_before_after :
+    contactPosition_asIs_before_fix Ex.Deg.P (portalDirection Ex.Deg.P.p1 Ex.Deg.P.p2 Ex.Deg.P.p3)
+      = .error .divZero ∧
+    contactPosition Ex.Deg.P (portalDirection Ex.Deg.P.p1 Ex.Deg.P.p2 Ex.Deg.P.p3)
+      = .ok (⟨1, 1, 0⟩, 2) ∧
+    Ex.Deg.P.p1 = Ex.Deg.P.p3 ∧ Ex.Deg.P.p2.v = V3.zero :=
+  ⟨Ex.Deg.before, Ex.Deg.after, rfl, rfl⟩
+
+/-- the repair changes nothing outside the degenerate condition -/
+theorem contact_position_unchanged_off_degenerate (P : Portal ℝ) (dir : V)
+    (h : ¬ ContactDegenerate P dir) :
+    contactPosition P dir = contactPosition_asIs_before_fix P dir := by
+  rw [contactPosition_split, if_neg h]
 
 /-- distinct centres in the example scene (no `portals_center_is_origin` nudge) -/
 example : Cex.c1 ≠ Cex.c2 := by
